@@ -286,6 +286,12 @@ def catalogue():
                                          .query(_QPTS if s == "spherical" else _QXYZ, k=1)))(kind, system, recon))
             nm = "kd_tree:%s:%s" % (kind, system)
             add(nm, (lambda k, s: (lambda g: g.get_kd_tree(k, coordinate_system=s).query(_QXYZ if s == "cartesian" else _QPTS[:, ::-1], k=1)))(kind, system))
+    # ... and with the largest admissible k (all elements of the kind): the tree's own bookkeeping of how many elements it holds
+    # must follow the kind that is selected, whatever was selected before
+    _cnt = {"nodes": lambda g: int(g.n_node), "face centers": lambda g: int(g.n_face), "edge centers": lambda g: int(g.n_edge)}
+    for kind in ("nodes", "face centers", "edge centers"):
+        add("ball_tree:%s:spherical:k_all" % kind, (lambda k: (lambda g: g.get_ball_tree(k, coordinate_system="spherical", distance_metric="haversine").query(_QPTS[:2], k=_cnt[k](g))))(kind))
+        add("kd_tree:%s:cartesian:k_all" % kind, (lambda k: (lambda g: g.get_kd_tree(k, coordinate_system="cartesian").query(_QXYZ[:2], k=_cnt[k](g))))(kind))
     for metric in ("chebyshev", "manhattan"):
         add("kd_tree:face centers:cartesian:" + metric, (lambda mt: (lambda g: g.get_kd_tree("face centers", coordinate_system="cartesian", distance_metric=mt).query(_QXYZ, k=2)))(metric))
         add("ball_tree:nodes:cartesian:False:" + metric, (lambda mt: (lambda g: g.get_ball_tree("nodes", coordinate_system="cartesian", distance_metric=mt).query(_QXYZ, k=2)))(metric))
